@@ -1,10 +1,47 @@
 (* C19 - Counterfactual event simplification and factorisation preserve probability. *)
 From Coq Require Import List Bool.
-From Y0 Require Import Base.ListSet Graph.MixedGraph Dsl.Syntax Dsl.Build Alg.Id Alg.Cg Alg.CtfAnc Proofs.CtfP.
+From Y0 Require Import Base.ListSet Graph.MixedGraph Dsl.Syntax Dsl.Build Alg.Id Alg.Cg Alg.CtfAnc Proofs.CtfP Sem.Scm Sem.CfSem Proofs.ScmP Proofs.MinimizeSemP.
 Import ListNotations.
 
-(* The semantic clauses are not proved; SIMPLIFY is known to violate them for reflexive subscripts (known findings).
-   Proved on the model for every variable and graph: *)
+(* FIRST CLAUSE, in full: 'minimising a counterfactual variable yields the same random variable in every compatible model'.
+   For every graph with a topological order (i.e. acyclic), every functional SCM over it (structural functions that read their parents only,
+   any exogenous space U, any base assignment rho), every variable Y_x of the graph and every exogenous state u: every solution of the submodel
+   M_x and every solution of the submodel of the minimised variable give Y the same value. The statement is pointwise in u, so it holds for every
+   distribution of u - every structural causal model compatible with the graph, whatever its bidirected part. *)
+Theorem C19_minimised_variable_is_the_same_random_variable (g : mg nat) (U : Type) (f : nat -> (nat -> bool) -> U -> bool) (rho : nat -> bool)
+  (order : list nat) (v v' : var) :
+  local g U f -> is_topo g order = true -> minimize_counterfactual v g = Some v' -> In (vn v) (nodes g) ->
+  forall u x x', solution g U f rho (var_ivs v) u x -> solution g U f rho (var_ivs v') u x' -> x (vn v) = x' (vn v').
+Proof. intros Hl Ho. exact (minimize_same_variable g U f rho Hl order Ho v v'). Qed.
+
+(* the semantics is not vacuous: every submodel has a solution (computed along the order) and only one *)
+Theorem C19_every_submodel_has_exactly_one_solution (g : mg nat) (U : Type) (f : nat -> (nat -> bool) -> U -> bool) (rho : nat -> bool) (order : list nat) ivs u :
+  local g U f -> is_topo g order = true ->
+  solution g U f rho ivs u (solve U f rho order ivs u) /\ forall x x', solution g U f rho ivs u x -> solution g U f rho ivs u x' -> forall v, In v (nodes g) -> x v = x' v.
+Proof. intros Hl Ho. split; [exact (solution_exists g U f rho Hl order Ho ivs u)|exact (solution_unique g U f rho Hl order Ho ivs u)]. Qed.
+
+(* SIMPLIFY's first step (minimise every variable of the event) changes the truth of the event at no exogenous state *)
+Theorem C19_minimising_an_event_preserves_its_truth_everywhere (g : mg nat) (U : Type) (f : nat -> (nat -> bool) -> U -> bool) (rho : nat -> bool)
+  (order : list nat) (ev ev' : cevent) u :
+  local g U f -> is_topo g order = true ->
+  map_opt (fun p => option_map (fun v => (v, snd p)) (minimize_counterfactual (fst p) g)) ev = Some ev' ->
+  (forall p, In p ev -> In (vn (fst p)) (nodes g)) ->
+  cevent_true U f rho order ev u = cevent_true U f rho order ev' u.
+Proof. intros Hl Ho. exact (minimize_event_same_truth g U f rho Hl order Ho ev ev' u). Qed.
+
+(* SECOND CLAUSE ('SIMPLIFY returns an event with the same probability') is FALSE of the code as it stands (known finding C19/simplify-probability):
+   on the one-node graph, SIMPLIFY turns the certain event Y_y = y into the factual Y = y; in the model Y := u the first is true at
+   both states, the second at one. *)
+Theorem C19_simplify_preserves_probability_refuted :
+  exists (g : mg nat) (ev ev' : cevent) (f : nat -> (nat -> bool) -> bool -> bool) (rho : nat -> bool) (order : list nat) (u : bool),
+    local g bool f /\ is_topo g order = true /\ simplify ev g = SEvent ev' /\ cevent_true bool f rho order ev u = true /\ cevent_true bool f rho order ev' u = false.
+Proof.
+  exists (MG [0] [] []), [(mkVar KCf 0 None [(0, false)], Some (0, false))], [(V 0, Some (0, false))],
+         (fun _ _ u => u), (fun _ => true), [0], false.
+  split; [intros v x x' u _; reflexivity|]. vm_compute. auto.
+Qed.
+
+(* Proved on the model for every variable and graph: *)
 Theorem C19_minimisation_is_total_well_formed_and_keeps_exactly_the_relevant_subscripts (v : var) (g : mg nat) :
   exists v', minimize_counterfactual v g = Some v' /\ vn v' = vn v /\ vs v' = vs v /\
              (is_cf v' = true -> vi v' <> []) /\
@@ -22,6 +59,10 @@ Theorem C19_old_components_merged_through_outside_edges_refuted :
   get_ancestral_components_gen false [] [V 0; V 1] g = Some [[V 0]; [V 1]].
 Proof. exact components_old_merges_through_outside_edges. Qed.
 
+Print Assumptions C19_minimised_variable_is_the_same_random_variable.
+Print Assumptions C19_every_submodel_has_exactly_one_solution.
+Print Assumptions C19_minimising_an_event_preserves_its_truth_everywhere.
+Print Assumptions C19_simplify_preserves_probability_refuted.
 Print Assumptions C19_minimisation_is_total_well_formed_and_keeps_exactly_the_relevant_subscripts.
 Print Assumptions C19_old_minimisation_raised_refuted.
 Print Assumptions C19_old_components_merged_through_outside_edges_refuted.
